@@ -4,6 +4,7 @@
 
 mod driver;
 mod golden;
+mod sat;
 mod util;
 mod world;
 
@@ -66,6 +67,9 @@ fn main() {
                     println!("{}", serde_json::json!({"checks": n, "failures": fails}));
                 })
         }
+        "policy" => sat::policy::run(&args),
+        "pke" => sat::pke::run(&args),
+        "wire" => sat::wire::run(&args),
         "features" => {
             println!("{}", if cfg!(feature = "cfg-alt") { "alt" } else { "default" });
             Ok(())
